@@ -56,8 +56,8 @@ impl Check for C01 {
 
     fn runs(&self, tier: Tier) -> u64 {
         match tier {
-            Tier::Quick => 600_000,
-            Tier::Thorough => 30_000_000,
+            Tier::Quick => 600_000 + (vmgen::operand_cells() + vmgen::small_cells()) as u64,
+            Tier::Thorough => 30_000_000 + (vmgen::operand_cells() + vmgen::small_cells()) as u64,
         }
     }
 
@@ -65,6 +65,11 @@ impl Check for C01 {
         if run >= 100 && run < 100 + vmgen::operand_cells() as u64 {
             // the enumerated operand grid: every int / float instruction x every ordered pair of boundary literals
             return vmgen::gen_operand_cell((run - 100) as usize);
+        }
+        let small0 = 100 + vmgen::operand_cells() as u64;
+        if run >= small0 && run < small0 + vmgen::small_cells() as u64 {
+            // the small-scope enumeration of exec-structural programs (<= 5 nodes, <= 2 distinct instructions)
+            return vmgen::gen_small_cell((run - small0) as usize);
         }
         if run == 11 {
             // one very long evaluation (millions of steps) compared with the model at the end
